@@ -145,7 +145,9 @@ fn emit(ctx: &mut Ctx, bytes: &[u8], env: &TypeEnv, tys: &[Type], dq: Option<usi
 
 /// measured cost, then quotas around it
 fn around(ctx: &mut Ctx, bytes: &[u8], env: &TypeEnv, tys: &[Type]) {
-    let big = 1usize << 40;
+    // generous, but finite: a mutated length can announce 10^8 zero-sized elements, which the decoder would decode
+    // (and the model would have to) if the quotas allowed it
+    let big = 50_000_000usize;
     let a = emit(ctx, bytes, env, tys, Some(big), Some(big));
     // "ok (<vals>) cd cs"
     if let Some(rest) = a.strip_prefix("ok ") {
